@@ -175,6 +175,17 @@ def shapes(tier, seed):
         # conclusion takes one value per body solution; what an unbound variable means there is C12's business, not C11's)
         for b in (J[3], ["and", J[0], SY[0]], ["and", SX[0], J[3]], ["not", J[4]]):
             out.append(dict(BASE2, head=h, cond=b, spelling="add"))
+    # three variables: chains where the right conjunct introduces a variable the left does not bind
+    B3 = dict(pools={"X": 2, "Y": 2, "W": 2}, classes={"W": "Other"}, refs={"X": "Y"}, vars={"x": "X", "y": "Y", "w": "W"},
+              select=[["v", "x"], ["v", "y"], ["v", "w"]])
+    h3 = [dict(src=["v", "x"], val=["v", "y"], extra=["v", "w"]), dict(src=["v", "w"], val=["a", "x", "a"], extra=["v", "y"])]
+    eq = lambda a, b: ["cmp", "eq", ["a", a, "a"], ["a", b, "a"]]
+    c3 = [["and", eq("x", "w"), eq("x", "y")], ["and", eq("x", "y"), ["cmp", "lt", ["a", "y", "b"], ["a", "w", "b"]]],
+          ["and", ["cmp", "eq", ["ra", "x"], ["v", "y"]], eq("y", "w")], ["or", eq("x", "w"), eq("x", "y")],
+          ["and", eq("x", "w"), ["or", eq("x", "y"), ["cmp", "gt", ["a", "y", "b"], ["lit", 0]]]]]
+    for h in h3:
+        for c in c3:
+            out.append(dict(B3, head=h, cond=c))
     core = S.core_leaves("x")
     bodies1 = core[:5] + [["and", core[0], core[1]], ["or", core[0], core[2]], ["not", core[1]], None]
     for h in heads1():
